@@ -13,12 +13,16 @@ VERIF = N.VERIF
 KNOWN_FILE = os.path.join(VERIF, "known_findings.json")
 
 
-def known_c02():
+def known_for(prop):
     try:
         d = json.load(open(KNOWN_FILE))
     except Exception:  # noqa: BLE001
         return []
-    return [k for k in d.get("findings", []) if k.get("property") == "C02" and k.get("status") == "known"]
+    return [k for k in d.get("findings", []) if k.get("property") == prop and k.get("status") == "known"]
+
+
+def known_c02():
+    return known_for("C02")
 
 
 def match_known(known, cls, detail):
@@ -31,13 +35,13 @@ def match_known(known, cls, detail):
     return None
 
 
-def make_jobs(tier, seed, work, ncases, shards_per_mode):
+def make_jobs(tier, seed, work, ncases, shards_per_mode, modes=(("server", "referenceserver"), ("client", "referenceclient")), gen_kind=""):
     cfgdir = os.path.join(work, "configs")
     os.makedirs(cfgdir, exist_ok=True)
     jobs = []
     combos = [(v, p) for v in VERSIONS for p in PROTOCOLS if valid(v, p)]
     idx = 0
-    for mode, peer in (("server", "referenceserver"), ("client", "referenceclient")):
+    for mode, peer in modes:
         for k in range(shards_per_mode):
             idx += 1
             v, p = combos[(seed + idx) % len(combos)]
@@ -50,7 +54,7 @@ def make_jobs(tier, seed, work, ncases, shards_per_mode):
             lv = 1
             j = {"kind": "run", "name": name, "mode": mode, "peer": peer, "config_file": cfgp, "known_failing": [], "trace": True,
                  "seed": seed * 1000 + idx, "max_servers": 4, "parallelism": 8, "level": lv,
-                 "gen_seed": seed * 100003 + idx, "gen_cases": ncases, "gen_thorough": tier == "thorough",
+                 "gen_seed": seed * 100003 + idx, "gen_cases": ncases, "gen_thorough": tier == "thorough", "gen_kind": gen_kind,
                  "shard": "%s %s %s %s" % (v, p, codecs[0], comps[1])}
             j.update(LEVELS[lv])
             jobs.append(j)
@@ -82,6 +86,8 @@ def fails(r):
     g = d.get("gen") or []
     if g and g[0]["load"].startswith("panic"):
         return "load-panic"
+    if g and g[0].get("load_violation"):
+        return "padding"
     if g and g[0]["load"].startswith("rejected"):
         return None
     if not d["ok"]:
@@ -120,15 +126,16 @@ def shrink(binp, job, tape, work, cls, budget=24):
     return best
 
 
-def main(args, cfg):
+def run_gen(args, PROP, gen_kind, modes, rule, extra_assumptions):
+    P = PROP.lower()
     tier = args.tier if args.tier in ("quick", "thorough") else "quick"
     seed = args.seed if args.seed is not None else int(os.environ.get("VERIF_SEED", "1") or "1")
-    work = os.path.join(VERIF, "work", "C02" + os.environ.get("VERIF_WORK_SUFFIX", ""))
+    work = os.path.join(VERIF, "work", PROP + os.environ.get("VERIF_WORK_SUFFIX", ""))
     t0 = time.time()
     bcfg = N.n_config(os.path.join(work + "-prep"))
-    bcfg["id"] = "C02"
+    bcfg["id"] = PROP
     binp, build_s, _ = vcheck.build(bcfg, work)
-    known = known_c02()
+    known = known_for(PROP)
 
     if args.replay:
         rf = json.load(open(args.replay))
@@ -141,14 +148,14 @@ def main(args, cfg):
         d = r["data"] or {}
         print(json.dumps({"verdict": f, "load": (d.get("gen") or [{}])[0].get("load"), "failed_lines": d.get("failed_lines"), "panic": d.get("panic")}, indent=1)[:6000])
         if f == rf["class"].split("/", 1)[1] or (f and rf["class"].endswith(f)):
-            print("VIOLATION property=C02 replay=%s" % os.path.abspath(args.replay))
+            print("VIOLATION property=%s replay=%s" % (PROP, os.path.abspath(args.replay)))
             return 1
         print("replay: verdict now %r" % f)
         return 0
 
     ncases = 30 if tier == "quick" else 80
     shards = 12 if tier == "quick" else 64
-    jobs = make_jobs(tier, seed, work, ncases, shards)
+    jobs = make_jobs(tier, seed, work, ncases, shards, modes, gen_kind)
     with ThreadPoolExecutor(args.workers or 16) as ex:
         results = list(ex.map(lambda j: N.run_shard(binp, j, work, 900), jobs))
     agg = {"cases": 0, "rejected": 0, "load_panics": 0, "permutations": 0, "passed": 0, "failed": 0, "sim_seconds": 0.0, "net": {}}
@@ -168,7 +175,9 @@ def main(args, cfg):
                 agg["rejected"] += 1
             if g["load"].startswith("panic"):
                 agg["load_panics"] += 1
-                found.append((r["job"], int(g["name"][1:]), g["tape"], "c02/load-panic", "loading case %s crashed: %s; definition: %s" % (g["name"], g["load"], (g.get("definition") or "")[:1500])))
+                found.append((r["job"], int(g["name"][1:]), g["tape"], P + "/load-panic", "loading case %s crashed: %s; size info: %s; definition: %s" % (g["name"], g["load"], json.dumps(g.get("size_info")), (g.get("definition") or "")[:1500])))
+            if g.get("load_violation"):
+                found.append((r["job"], int(g["name"][1:]), g["tape"], P + "/padding", "case %s: %s; size info: %s" % (g["name"], g["load_violation"], json.dumps(g.get("size_info")))))
         if len(samples) < 3 and gen:
             samples.append({"shard": r["job"]["shard"], "mode": r["job"]["mode"], "case": gen[0]["name"], "stream_type": gen[0]["stream_type"], "requests": gen[0]["requests"],
                             "definition": (gen[0].get("definition") or "")[:1500], "permutations_in_shard": d["total"]})
@@ -179,21 +188,23 @@ def main(args, cfg):
         for k, v in d["net"].items():
             agg["net"][k] = agg["net"].get(k, 0) + v
         if d.get("panic"):
-            found.append((r["job"], None, None, "c02/panic", d["panic"][:2000]))
+            found.append((r["job"], None, None, P + "/panic", d["panic"][:2000]))
+        elif not d["ok"] and "no test cases apply to current configuration" in (d.get("err") or ""):
+            agg["rejected"] += 0  # an empty shard: none of its cases applies to this config slice
         elif not d["ok"]:
             seen = set()
-            for i, name in enumerate(d["failed_names"]):
+            for i, name in enumerate(d["failed_names"] or []):
                 ci = case_of(name)
                 if ci is None or ci in seen:
                     continue
                 seen.add(ci)
                 tape = next((g["tape"] for g in gen if g["name"] == "g%d" % ci), None)
-                line = next((l for l in d["failed_lines"] if name in l), "")
+                line = next((l for l in (d["failed_lines"] or []) if name in l), "")
                 gi = next((g for g in gen if g["name"] == "g%d" % ci), {})
                 defn = gi.get("definition") or ""
-                found.append((r["job"], ci, tape, "c02/fail", "%s ; case: %s with %s request(s); definition: %s" % (line[:1500], gi.get("stream_type"), gi.get("requests"), defn[:1500])))
+                found.append((r["job"], ci, tape, P + "/fail", "%s ; case: %s with %s request(s); definition: %s" % (line[:1500], gi.get("stream_type"), gi.get("requests"), defn[:1500])))
             if not seen:
-                found.append((r["job"], None, None, "c02/fail", "run %s failed: err=%r %s" % (r["job"]["name"], d["err"], " | ".join(d["failed_lines"][:2])[:1500])))
+                found.append((r["job"], None, None, P + "/fail", "run %s failed: err=%r %s" % (r["job"]["name"], d["err"], " | ".join((d["failed_lines"] or [])[:2])[:1500])))
 
     exit_code = 0
     lines = []
@@ -209,7 +220,7 @@ def main(args, cfg):
         if cls in reported or len(reported) >= 2:
             continue
         reported.add(cls)
-        path = os.path.join(VERIF, "replays", "C02-%s-%s.json" % (job["name"], ci))
+        path = os.path.join(VERIF, "replays", "%s-%s-%s.json" % (PROP, job["name"], ci))
         if tape is not None:
             # confirm alone (three fresh processes, same verdict), then minimise the definition
             want = cls.split("/", 1)[1]
@@ -229,18 +240,18 @@ def main(args, cfg):
             gi = (dd.get("gen") or [{}])[0]
             detail = "minimised (%d -> %d tape entries): load=%s %s ; definition: %s" % (len(tape), len(small), gi.get("load"), " | ".join((dd.get("failed_lines") or [])[:1])[:1500], (gi.get("definition") or "")[:2500])
             tape = small
-        json.dump({"property": "C02", "class": cls, "detail": detail, "tape": tape, "job": job, "config_text": open(job["config_file"]).read()}, open(path, "w"), indent=1)
-        lines += ["VIOLATION property=C02 replay=%s" % path, "  class: " + cls, "  detail: " + detail[:3500]]
+        json.dump({"property": PROP, "class": cls, "detail": detail, "tape": tape, "job": job, "config_text": open(job["config_file"]).read()}, open(path, "w"), indent=1)
+        lines += ["VIOLATION property=%s replay=%s" % (PROP, path), "  class: " + cls, "  detail: " + detail[:3500]]
         exit_code = 1
 
     wall = time.time() - t0
     if not args.no_evidence:
         ev = {
-            "property_id": "C02", "tier": tier, "seed": seed, "level": "exploration",
+            "property_id": PROP, "tier": tier, "seed": seed, "level": "exploration",
             "coverage": {
                 "evaluations": agg["cases"],
                 "distinct_nontrivial": agg["cases"] - agg["rejected"],
-                "rule": "an evaluation is one generated test-case definition (stream type, 0-4/8 requests, 0-4/8 responses incl. more responses than requests and zero requests, headers/trailers with repeated names, mixed case and -bin values, error codes 1-16 with empty/UTF-8/percent-worthy messages and 0-3 details, payload bytes from empty to 64 KiB), drawn from its own tape, loaded on its own through parseTestSuites + newTestCaseLibrary (panic = violation, error = legal rejection) and then executed by the real runner against the real reference and gRPC peers for every permutation of its shard's config slice; distinct by construction (each case has its own seed); non-trivial = accepted by the loader and executed.",
+                "rule": rule or "an evaluation is one generated test-case definition (stream type, 0-4/8 requests, 0-4/8 responses incl. more responses than requests and zero requests, headers/trailers with repeated names, mixed case and -bin values, error codes 1-16 with empty/UTF-8/percent-worthy messages and 0-3 details, payload bytes from empty to 64 KiB), drawn from its own tape, loaded on its own through parseTestSuites + newTestCaseLibrary (panic = violation, error = legal rejection) and then executed by the real runner against the real reference and gRPC peers for every permutation of its shard's config slice; distinct by construction (each case has its own seed); non-trivial = accepted by the loader and executed.",
                 "samples": samples or [{"note": "no case generated"}],
                 "cases_rejected_by_loader": agg["rejected"],
                 "cases_crashing_the_loader": agg["load_panics"],
@@ -258,17 +269,21 @@ def main(args, cfg):
                 "components_stubbed": ["kernel network (simnet)", "wall clock (synctest)", "OS processes (in-process peers)"],
                 "honest_note": "the deciding variable is the generated input; simulation contributes the execution vehicle (whole system, deterministic verdicts, segmentation independence)",
             },
-            "assumptions": ["fault-free network (only segmentation and sub-millisecond latency)", "a failing case is confirmed three times alone in fresh processes before it is reported, and its tape is minimised"],
+            "assumptions": ["fault-free network (only segmentation and sub-millisecond latency)", "a failing case is confirmed three times alone in fresh processes before it is reported, and its tape is minimised"] + list(extra_assumptions or []),
             "wall_s": round(wall, 2),
             "violations": len(reported),
         }
-        json.dump(ev, open(os.path.join(VERIF, "evidence", "C02.json"), "w"), indent=1)
-    print("C02 tier=%s seed=%d shards=%d cases=%d rejected=%d load-panics=%d permutations=%d passed=%d failed=%d sim=%.1fs wall=%.1fs" % (
+        json.dump(ev, open(os.path.join(VERIF, "evidence", PROP + ".json"), "w"), indent=1)
+    print(PROP + " tier=%s seed=%d shards=%d cases=%d rejected=%d load-panics=%d permutations=%d passed=%d failed=%d sim=%.1fs wall=%.1fs" % (
         tier, seed, len(results), agg["cases"], agg["rejected"], agg["load_panics"], agg["permutations"], agg["passed"], agg["failed"], agg["sim_seconds"], wall))
     for k in known:
         if known_lines.get(k["id"]):
-            print("KNOWN-FINDING: property=C02 %s (%s; seen %d time(s))" % (k["id"], k.get("description", ""), known_lines[k["id"]]))
+            print("KNOWN-FINDING: property=%s %s (%s; seen %d time(s))" % (PROP, k["id"], k.get("description", ""), known_lines[k["id"]]))
     for line in lines:
         print(line)
     sys.stdout.flush()
     return exit_code
+
+
+def main(args, cfg):
+    return run_gen(args, "C02", "", (("server", "referenceserver"), ("client", "referenceclient")), None, None)
